@@ -11,6 +11,8 @@ Decided:
  Q6 no driver access to a posted buffer: after a driver-owned buffer has been handed to `add`, no statement reachable
     from that call in the same function reads or writes the buffer's memory unless a pop_used lies in between
     (the delivered value must have been copied out before the buffer was re-posted).
+ Q7 a completion is always seen: the free-running used/last-used indices are only compared for (in)equality and only
+    advanced with wrapping arithmetic (C03.E5), so delivery does not stop after the 16-bit index wraps.
  Q5 initial stocking: each constructor of a stocked queue adds every buffer in a loop and propagates failure.
 Not decided: "exactly once, count returns to SIZE" over histories.
 """
@@ -53,6 +55,8 @@ def run(F, R):
             q1_pop_readd(F, R, M, b, roles, byrole)
     q5_stocking(F, R, M, roles, byrole)
     q6_no_access_after_post(F, R, M, roles)
+    from .C03 import counters_rule
+    counters_rule(F, R, 'Q7')
     users = [n for n, a in F.adts.items() if a['kind'] == 'struct' and n not in (M.owning_adt,) and any(
         M.owning_adt in f['mentions'] for f in a['variants'][0]['fields'])]
     R.count('users', len(users) + 1)
@@ -234,10 +238,12 @@ def q5_stocking(F, R, M, roles, byrole):
     R.count('stocking_loops', n)
 
 
-def q6_no_access_after_post(F, R, M, roles):
+def q6_no_access_after_post(F, R, M, roles, rule='Q6', only=None):
     nsites = 0
     for b in F.bodies.values():
         if not F.handwritten(b) or b.get('impl_adt') == M.queue_adt or b['kind'] not in ('AssocFn', 'Fn'):
+            continue
+        if only and not only(b):
             continue
         sg = supergraph(F, b['id'], opaque=lambda t, bb: bb['id'] in roles, tag='q6')
         S = sg.sym
@@ -275,7 +281,7 @@ def q6_no_access_after_post(F, R, M, roles):
                     for o in objs:
                         if loc[1] == o[1] and tuple(loc[2][:len(o[2])]) == tuple(o[2]):
                             bad = '%s of %s at line %s after the buffer was posted at line %s' % (kind, fmt(loc)[:100], n.line, A.line)
-            R.check(bad is None, 'Q6', '%s:add@%s' % (b['id'], fmt(S.operand(A.id, A.d['args'][0]))[:50]), site(sg, A),
+            R.check(bad is None, rule, '%s:add@%s' % (b['id'], fmt(S.operand(A.id, A.d['args'][0]))[:50]), site(sg, A),
                     'no access to the driver-owned buffer between posting it and the next pop_used',
                     'a buffer owned by the device is accessed by the driver: %s' % bad)
     R.count('post_sites', nsites)
